@@ -10,7 +10,7 @@ THEOREMS = ['Otel.C13.' + t for t in (
     'emit_fields', 'emit_attrs_last_write_wins', 'emit_identity_componentwise',
     'correlation_active_span', 'explicit_identity_wins', 'no_active_span_zero_ids', 'active_span_is_top_of_own_stack',
     'null_record_ignored', 'emitted_record_is_gone', 'disabled_logger_emits_nothing', 'disabled_logger_program',
-    'each_processor_once', 'emit_reaches_every_processor_once', 'fanout_identical_children',
+    'each_processor_once', 'emit_reaches_every_processor_once', 'fanout_identical_children', 'emit_hands_over', 'exporter_logs_only_grow',
     'exported_eq_emitted_partial', 'simple_processor_exports_emitted_values', 'untouched_cells_stay_readable',
     'exported_eq_emitted_witness', 'exported_eq_emitted_uaf_witness', 'eventid_name_partial', 'eventid_name_witness',
     'eventid_without_name')]
@@ -513,7 +513,8 @@ LEVEL_TEXT = ('Lean 4 theorems over an executable model of logger.cc / read_writ
               'processor), with per-thread context stacks and a caller heap: emit_fields / emit_attrs_last_write_wins / '
               'emit_identity_componentwise (the argument pack is a left-to-right fold, later argument wins per field), '
               'correlation_active_span, explicit_identity_wins, no_active_span_zero_ids, active_span_is_top_of_own_stack, '
-              'null_record_ignored, disabled_logger_emits_nothing, each_processor_once (every program, every processor mix), '
+              'null_record_ignored, disabled_logger_emits_nothing, each_processor_once (every program, every processor mix), emit_hands_over '
+              '(the record handed to every processor, with the provider\'s resource and the logger\'s scope), exporter_logs_only_grow, '
               'exported_eq_emitted_partial + simple_processor_exports_emitted_values (values at export = values at emit when the caller '
               'did not touch the cells in between; always so for the simple processor) with kernel-checked witnesses that the full '
               'statement is false for deferred export. Model and code are run side by side under ASan/UBSan.')
